@@ -10,7 +10,6 @@ import (
 	"bufio"
 	"bytes"
 	"crypto"
-	"encoding/binary"
 	"fmt"
 	"io"
 	"strings"
@@ -246,19 +245,6 @@ func FuzzPackParser(f *testing.F) {
 			_, err := packfile.NewParser(bytes.NewReader(data)).Parse()
 			return err == nil
 		}, data)
-		// A header that declares >= 65536 objects cannot be honest in an input of
-		// <= 64 KiB (an entry takes >= 3 bytes): every mode ends in the same EOF
-		// error after go-git's capped 64 Ki-entry cache preallocation (11 MB each).
-		// To keep one execution well under the engine's 10 s wall-clock kill on a
-		// loaded machine, such inputs run the plain parser and the fs-update path
-		// only; the storage variants below see every honest header.
-		if len(data) >= 12 && string(data[:4]) == "PACK" && binary.BigEndian.Uint32(data[8:12]) >= 1<<16 {
-			skipMode("FuzzPackParser", "memory")
-			skipMode("FuzzPackParser", "stream-memory")
-			skipMode("FuzzPackParser", "sha256")
-			fsUpdate(t, data)
-			return
-		}
 		guard(t, "FuzzPackParser", "memory", func() bool {
 			_, err := packfile.NewParser(bytes.NewReader(data), packfile.WithStorage(memory.NewStorage())).Parse()
 			return err == nil
@@ -280,20 +266,6 @@ func FuzzPackParser(f *testing.F) {
 // packfile.UpdateObjectStorage into a filesystem storage (PackfileWriter: pack
 // copied to objects/pack, idx built by idxfile.Writer) and is read back.
 func fsUpdate(t *testing.T, data []byte) {
-	// Known finding FuzzPackParser:alloc@…idxfile.(*Writer).OnHeader: the idx
-	// writer behind PackfileWriter preallocates `count` entries (56 B each)
-	// from the 4-byte header field. Counts up to 2^21 (117 MiB, already over
-	// the bound for these input sizes) are run and judged by the allocation
-	// oracle; larger ones cost seconds of page faults per execution (the
-	// engine kills a worker whose execution exceeds 10 s of wall clock) and
-	// from ~2^27 exhaust the 8 GiB RLIMIT_AS (fatal error: out of memory),
-	// stopping the engine at the same known defect every few hundred
-	// executions. So this one mode skips them; the other modes, whose
-	// preallocation go-git caps, do not.
-	if len(data) >= 12 && string(data[:4]) == "PACK" && binary.BigEndian.Uint32(data[8:12]) > 1<<21 {
-		skipMode("FuzzPackParser", "fs-update")
-		return
-	}
 	guard(t, "FuzzPackParser", "fs-update", func() bool {
 		st := filesystem.NewStorage(memfs.New(), cache.NewObjectLRUDefault())
 		defer st.Close()
